@@ -54,6 +54,16 @@ func (d *captureDriver) SendResult(bestMove Move, ponderMove Move) {
 }
 func (d *captureDriver) nResults() int { d.mu.Lock(); defer d.mu.Unlock(); return len(d.results) }
 
+// waitResults waits (bounded) until n results have been delivered: the engine gives up its running
+// state right before it sends the result, so a result may arrive shortly after WaitWhileSearching.
+func (d *captureDriver) waitResults(n int) int {
+	deadline := time.Now().Add(3 * time.Second)
+	for d.nResults() < n && time.Now().Before(deadline) {
+		time.Sleep(200 * time.Microsecond)
+	}
+	return d.nResults()
+}
+
 // switch vectors --------------------------------------------------------------
 
 type soundCfg struct {
